@@ -11,19 +11,39 @@ def IS(m, t):
 
 
 def DISTINCT(L):
-    return f"forall(0, len({L}), lambda da: forall(0, len({L}), lambda db: implies(da != db, {L}[da] != {L}[db])))"
+    return f"distinct({L})"
+
+
+def WF_MSG(m):
+    """type-specific mandatory fields"""
+    return (f"implies({NOTE(m)}, not is_none({m}.note)) and implies({IS(m, 'KEY_SIGNATURE')}, not is_none({m}.key))"
+            f" and implies({IS(m, 'TIME_SIGNATURE')}, not is_none({m}.numerator) and not is_none({m}.denominator))")
 
 
 def WF_REL(L=M):
     """waits carry a non-negative int time; every element has a type; no message object occurs twice"""
-    return (f"forall(0, len({L}), lambda w: not is_none({L}[w].message_type) and implies({IS(L + '[w]', 'WAIT')}, not is_none({L}[w].time) and {L}[w].time >= 0))"
+    return (f"forall(0, len({L}), lambda w: not is_none({L}[w].message_type) and implies({IS(L + '[w]', 'WAIT')}, not is_none({L}[w].time) and {L}[w].time >= 0) and {WF_MSG(L + '[w]')})"
             f" and {DISTINCT(L)}")
 
 
 def WF_ABS(L=M):
-    return (f"forall(0, len({L}), lambda w: not is_none({L}[w].message_type) and {L}[w].message_type != MessageType.WAIT and not is_none({L}[w].time) and {L}[w].time >= 0)"
+    return (f"forall(0, len({L}), lambda w: not is_none({L}[w].message_type) and {L}[w].message_type != MessageType.WAIT and not is_none({L}[w].time) and {L}[w].time >= 0 and {WF_MSG(L + '[w]')})"
             f" and {DISTINCT(L)}")
 
 
 def SORTED(L=M):
-    return f"forall(0, len({L}), lambda sa: forall(sa, len({L}), lambda sb: {L}[sa].time <= {L}[sb].time))"
+    return f"sorted_by_time({L})"
+
+
+def PROTO(s="self"):
+    """representation invariant of the Sequence wrapper (protocol part of wf_seq, DESIGN section 5)"""
+    A, Rr = f"{s}._abs._messages", f"{s}._rel._messages"
+    return (f"not ({s}._abs_stale and {s}._rel_stale)"
+            f" and implies(not {s}._abs_stale, not is_none({s}._abs) and {WF_ABS(A)})"
+            f" and implies(not {s}._rel_stale, not is_none({s}._rel) and {WF_REL(Rr)})"
+            f" and implies(not {s}._abs_stale and not {s}._rel_stale, {A} != {Rr} and forall(0, len({A}), lambda pa: forall(0, len({Rr}), lambda pb: {A}[pa] != {Rr}[pb])))")
+
+
+OWN = "[self._abs._messages, self._rel._messages]"     # message objects of either stored view
+OWN_LISTS = "[self._abs._messages, self._rel._messages]"
+SELF_FIELDS = {"_abs": "self", "_rel": "self", "_abs_stale": "self", "_rel_stale": "self"}
